@@ -387,6 +387,26 @@ class AbsGetter(VAbs):
         return [(st, self.out(k))]
 
 
+class AbsModeStr(VAbs):
+    """a dataset mode string, abstracted to the list of its space separated item names"""
+    label = "mode-string"
+
+    def __init__(self, name, idx=()):
+        self.name = name
+        self.items = fresh(TSeq(STR), name + "$items", unique=False)
+
+    def getattr(self, name, st, eng):
+        if name == "split":
+            def f(args, kwargs, s, e):
+                if not (args and isinstance(args[0], VStr) and args[0].s == " "):
+                    raise Unsupported("mode.split with a separator other than ' '")
+                s.assume(self.items.len >= 1)       # "".split(" ") == [""]: never empty
+                return self.items
+            return VFunc("mode.split", f)
+        raise KeyError(name)
+
+
+MODESTR = TAbs(lambda name, idx: AbsModeStr(name, idx), "mode-string")
 FUSEDENTRY = TAbs(lambda name, idx: AbsFusedEntry(name, idx), "fused-entry")
 GETTER = TAbs(lambda name, idx: AbsGetter(name, idx), "getter")
 
@@ -642,6 +662,8 @@ def install_spec_builtins(eng):
     def mode_of(args, kwargs, st, eng):
         return VInt(args[0].mode)
     eng.spec_builtins["ModeOf"] = VFunc("ModeOf", mode_of)
+
+    eng.spec_builtins["ModeItems"] = VFunc("ModeItems", lambda a, k, s, e: a[0].items)
 
     def comp(args, kwargs, st, eng):
         return VVal(Comp(args[0].t, _e.to_int(args[1])))
